@@ -66,6 +66,16 @@ inline double root12_of(double v)
     verif_axiom(v != 0 || r == 0);
     return r;
 }
+// principal square root as its own symbol (degree-2 constraints instead of the 12th-root encoding)
+inline double sqrt_of(double v)
+{
+    if (!verif_symbolic_exec() || g_numeric)
+        return std::sqrt(v);
+    double r = verif_uf1("ROOT2", v);
+    verif_axiom(v < 0 || r >= 0);
+    verif_axiom(v < 0 || r * r == v);
+    return r;
+}
 // axiom instances for an argument u (added once per call; the native replay backend ignores verif_axiom)
 inline void trig_axioms(double u)
 {
